@@ -23,6 +23,35 @@ REDUCERS = {"sorted", "len", "min", "max", "sum", "any", "all", "bool", "set", "
             "SortedSet", "Counter", "isinstance"}
 
 
+# Sort keys known to be injective on the elements they are applied to (a keyed sort is a total
+# order -- and hence a sanitiser -- only then: ties keep the incoming, unordered, order).
+INJECTIVE_KEYS = {
+  ("useractions.UserActions.doBulkRemoveRecord", "lambda c: c.node"):
+    "a column's node (table_id, col_id) identifies it uniquely among the back references",
+  ("lookup.LookupMapColumn._do_lookup_with_sort", "sort_key"):
+    "SortKey compares the sort values and then the row id (sort_key.py), None means plain sorted",
+}
+
+
+def key_is_injective(fn, call):
+  """sorted(...)/.sort(...) call: no key, or a key that cannot tie on distinct elements."""
+  key = None
+  for k in call.keywords:
+    if k.arg == "key":
+      key = k.value
+  if key is None:
+    return True
+  if isinstance(key, ast.Lambda) and len(key.args.args) == 1:
+    p = key.args.args[0].arg
+    body = key.body
+    if isinstance(body, ast.Name) and body.id == p:
+      return True
+    if isinstance(body, ast.Tuple) and any(isinstance(e, ast.Name) and e.id == p
+                                           for e in body.elts):
+      return True
+  return (fn.qualname, text(key)) in INJECTIVE_KEYS
+
+
 class FnTaint(object):
   """Taint facts for one function."""
   def __init__(self, ana, fn):
@@ -30,6 +59,7 @@ class FnTaint(object):
     self.fn = fn
     self.setvars = set()
     self.seqvars = set()
+    self.setlists = set()     # lists whose elements are sets (factors of itertools.product)
     self.sorted_lists = set()
     self._solve()
 
@@ -72,7 +102,16 @@ class FnTaint(object):
       return any(self.unordered(g.iter) for g in e.generators)
     if isinstance(e, ast.Call):
       d = dotted(e.func)
+      if d == "sorted" and e.args and not key_is_injective(self.fn, e):
+        return self.unordered(e.args[0])     # ties keep the unordered incoming order
       if d in REDUCERS:
+        return False
+      if d in ("itertools.product", "product"):
+        # the order of a product follows the order of each factor
+        for a in e.args:
+          v = a.value if isinstance(a, ast.Starred) else a
+          if self.unordered(v) or (isinstance(v, ast.Name) and v.id in self.setlists):
+            return True
         return False
       if d in SEQ_WRAPPERS:
         return any(self.unordered(a) for a in e.args)
@@ -105,7 +144,7 @@ class FnTaint(object):
     # lists sorted in place anywhere in the function are treated as sanitised
     for c in calls_in(node.body):
       if isinstance(c.func, ast.Attribute) and c.func.attr == "sort" and \
-          isinstance(c.func.value, ast.Name):
+          isinstance(c.func.value, ast.Name) and key_is_injective(self.fn, c):
         self.sorted_lists.add(c.func.value.id)
     changed = True
     guard = 0
@@ -118,6 +157,10 @@ class FnTaint(object):
             for t in n.targets:
               if isinstance(t, ast.Name):
                 changed |= self._bind(t.id, n.value)
+          elif isinstance(n, ast.Call) and isinstance(n.func, ast.Attribute) and \
+              n.func.attr == "append" and isinstance(n.func.value, ast.Name) and n.args and \
+              self.is_set(n.args[0]):
+            changed |= self._add(self.setlists, n.func.value.id)
           elif isinstance(n, ast.AugAssign) and isinstance(n.target, ast.Name):
             if self.unordered(n.value):
               changed |= self._add(self.seqvars if not self.is_set(n.target) else self.setvars,
@@ -169,7 +212,8 @@ class FnTaint(object):
     """Names inside e that carry order taint and are not under a sanitiser in e."""
     out = []
     def go(x, clean):
-      if isinstance(x, ast.Call) and dotted(x.func) in REDUCERS:
+      if isinstance(x, ast.Call) and dotted(x.func) in REDUCERS and \
+          not (dotted(x.func) == "sorted" and not key_is_injective(self.fn, x)):
         clean = True
       if isinstance(x, (ast.Lambda,)):
         return
